@@ -111,3 +111,48 @@ def strategy_of(coll):
     if names & {"RepartitionDivisions", "Repartition"}:
         return "aligned"
     return "blockwise"
+
+
+# ----------------------------------------------------------------------------- pre-partitioned sources (C39 / C40)
+NO_PRE = {"how": "none", "on": []}
+
+
+def pre_relation(pre, keys):
+    """How the columns K' the source was partitioned on relate to the keys K of the judged operation."""
+    if not pre or pre["how"] == "none":
+        return "none"
+    kp, k = set(pre["on"]), set(keys)
+    return "equal" if kp == k else "subset" if kp < k else "superset" if kp > k else "overlap" if kp & k else "disjoint"
+
+
+def apply_pre(coll, pdf, pre, names, n=None, method=None, tag="w", blockwise=False):
+    """Send a freshly built collection through the stage `pre` = {"how", "on"} that leaves partitioning knowledge behind
+    (`unique_partition_mapping_columns_from_shuffle`) without changing the multiset of rows:
+
+      shuffle   coll.shuffle(on=K', npartitions=n)
+      merge     an inner HASH join on K' with a two-partition frame that holds every K' combination of `pdf` exactly once
+                (adds a constant column `tag`)
+      groupby   groupby(K', dropna=False).agg(first, split_out=n).reset_index() - the caller guarantees that the rows are distinct on K'
+      setindex  set_index on a copy of the single column K' (sorted by known divisions; no hash knowledge, but known divisions)
+
+    `names` maps the column names of the specification to those of the real frame; `pdf` is the pandas frame behind `coll`.
+    blockwise: append a column assignment, so that the optimizer cannot simply drop a shuffle below a reduction."""
+    import dask.dataframe as ddm
+    how = pre["how"]
+    cols = [names[c] for c in pre["on"]]
+    if how == "shuffle":
+        out = coll.shuffle(on=cols, npartitions=n, shuffle_method=method)
+    elif how == "merge":
+        aux = pdf[cols].drop_duplicates().reset_index(drop=True)
+        aux[tag] = 0
+        out = coll.merge(ddm.from_pandas(aux, npartitions=2, sort=False), on=cols, how="inner", broadcast=False, shuffle_method=method, npartitions=n)
+    elif how == "groupby":
+        rest = [c for c in pdf.columns if c not in cols]
+        out = coll.groupby(cols, dropna=False, sort=False).agg({c: "first" for c in rest}, split_out=n or 2).reset_index()[list(pdf.columns)]
+    elif how == "setindex":
+        out = coll.assign(**{tag + "ix": coll[cols[0]]}).set_index(tag + "ix", npartitions=n, shuffle_method=method)
+    else:
+        return coll
+    if blockwise:
+        out = out.assign(**{tag + "z": 0})
+    return out
